@@ -454,7 +454,57 @@ func runC13(r *Rec) {
 			// the basket module account may mint and burn: coins minted here are the ones burnt below
 			bk.MintCoins(cc, "basket", sdk.NewCoins(sdk.NewInt64Coin("utest", supply)))
 		}
-		switch r.Rng.Intn(3) {
+		switch r.Rng.Intn(4) {
+		case 3: // governance edit (enacted UpsertTokenInfos proposal) of the registered token, then a registry mint
+			psu := []int64{0, 0, supply, supply + 5, int64(r.Rng.Intn(1000))}[r.Rng.Intn(5)]
+			pcap := []int64{0, capv, capv + 100, int64(r.Rng.Intn(2000))}[r.Rng.Intn(4)]
+			feeRate := sdk.MustNewDecFromStr([]string{"0", "1", "0.5", "2"}[r.Rng.Intn(4)])
+			feeOn := r.Rng.Intn(2) == 0
+			content := tokenstypes.NewUpsertTokenInfosProposal("utest", "adr20", feeRate, feeOn, sdkmath.NewInt(psu), sdkmath.NewInt(pcap), sdk.ZeroDec(), sdkmath.OneInt(), false, false, "TS2", "Test two", "", 6, "d", "", "", 0, sdkmath.ZeroInt(), w.addrs[(owner+1)%3].String(), !disabled, "", "")
+			err := w.Enact(cc, 0, content)
+			ti := tk.GetTokenInfo(cc, "utest")
+			b01 := func(b bool) int {
+				if b {
+					return 1
+				}
+				return 0
+			}
+			out := "err"
+			if err == nil && ti != nil {
+				no := -1
+				for j, a := range w.addrs {
+					if a.String() == ti.Owner {
+						no = j
+					}
+				}
+				out = fmt.Sprintf("ok %s %s %d %d", ti.Supply, ti.SupplyCap, no, b01(ti.OwnerEditDisabled))
+			}
+			r.Op(fmt.Sprintf("mint gov-edit %d %d %d %d %d %d", supply, capv, owner, b01(disabled), psu, pcap), out)
+			r.Case(fmt.Sprintf("govedit/%d/%d/%d/%d", supply, capv, psu, pcap), err == nil)
+			r.Count("gov-edit:" + strings.Fields(out)[0])
+			if err == nil && ti != nil {
+				if !ti.Supply.Equal(sdkmath.NewInt(supply)) {
+					r.Fail("C13/registry/gov-edit-changed-recorded-supply", fmt.Sprintf("an enacted UpsertTokenInfos proposal (supply field %d) for a token with %d minted left the recorded supply at %s", psu, supply, ti.Supply), nil)
+				}
+				if !ti.FeeRate.Equal(feeRate) || ti.FeeEnabled != feeOn || ti.Symbol != "TS2" {
+					r.Fail("C13/registry/gov-edit-not-as-proposed", fmt.Sprintf("proposed fee rate %s enabled %v symbol TS2; stored %s %v %s", feeRate, feeOn, ti.FeeRate, ti.FeeEnabled, ti.Symbol), nil)
+				}
+				// and a mint after it is checked against the books as they were
+				amt := int64(1 + r.Rng.Intn(60))
+				merr := withCache(cc, func(c sdk.Context) error {
+					return tk.MintCoins(c, "basket", sdk.NewCoins(sdk.NewInt64Coin("utest", amt)))
+				})
+				t2 := tk.GetTokenInfo(cc, "utest")
+				bs := bk.GetSupply(cc, "utest").Amount
+				mout := "err"
+				if merr == nil {
+					mout = fmt.Sprintf("ok %s %s", t2.Supply, bs)
+				}
+				r.Op(fmt.Sprintf("mint reg-mint %d %d %d %d", supply, capv, supply, amt), mout)
+				if merr == nil && capv > 0 && bs.GT(sdkmath.NewInt(capv)) {
+					r.Fail("C13/registry/supply-above-cap", fmt.Sprintf("after a governance edit a mint of %d took the bank supply to %s, above the cap %d", amt, bs, capv), nil)
+				}
+			}
 		case 0: // registry mint
 			amt := int64(r.Rng.Intn(60))
 			if amt == 0 {
